@@ -62,7 +62,7 @@ PROPS = {
     'C10': _p(['collection'], ['C10.order', 'C10.perm', 'C10.sort'], RULE_BATCH, 3000, 200000, _STEP),
     'C11': _p(['collection'], ['C11.accept', 'C11.after'], RULE_BATCH, 3000, 200000, _STEP,
               variants=[{'flags': []}, {'flags': ['-O']}]),
-    'C13': _p(['alias'], ['C13.msg-mutated', 'C13.reuse', 'C13.shared'], RULE_STEP, 3000, 200000,
+    'C13': _p(['alias'], ['C13.msg-mutated', 'C13.reuse', 'C13.shared', 'C13.shared-edit'], RULE_STEP, 3000, 200000,
               {'roundtrip': False, 'accessors': False, 'message': True, 'message_after': False}),
     'C14': _p(['mixed', 'meta', 'end', 'story'], ['C14.roundtrip', 'C14.envelope', 'C14.restart-equiv'], RULE_STEP, 3000, 200000,
               {'roundtrip': True, 'accessors': False, 'message': False}, dual_restart=True),
